@@ -170,7 +170,7 @@ def plan(tier, seed):
         specs = [((2, 3), 1), ((2, 3), 2), ((2, 3), 3), ((3, 3), 2), ((2, 2), 4), ((1 + 1, 4), 2)]
     else:
         specs = [((2, 3), 1), ((2, 3), 2), ((2, 3), 3), ((2, 3), 4), ((3, 3), 2), ((2, 2), 4), ((2, 2), 5), ((2, 4), 2),
-                 ((2, 4), 3), ((3, 2), 3), ((3, 2), 4), ((3, 4), 2)]
+                 ((2, 4), 3), ((3, 2), 3)]
     for shape, F in specs:
         nimg = 1 << (shape[0] * shape[1])
         total = nimg ** F
